@@ -53,6 +53,9 @@ class CastIdentity(RewriteRuleClassBase):
 
     def check(self, context, x, to) -> MatchResult:
         check_result = MatchResult()
+        if to.is_ref() or x.dtype is None:
+            # inside a function body: the target type is an attribute reference / the input type is unknown
+            return check_result.fail("Input or output type is not known")
         if x.dtype != to.as_int():
             return check_result.fail("Input and output types are not the same")
         return check_result
